@@ -7865,14 +7865,17 @@ class SFTPServer:
 
         """
 
-        path = os.readlink(_to_local_path(self.map_path(path)))
+        link_path = _to_local_path(self.map_path(path))
+        path = os.readlink(link_path)
 
         if sys.platform == 'win32' and \
                 path.startswith('\\\\?\\'): # pragma: no cover
             path = path[4:]
 
         if self._chroot:
-            path = os.path.realpath(path)
+            # A relative target is relative to the directory of the link
+            path = os.path.realpath(
+                os.path.join(os.path.dirname(link_path), path))
 
         return self.reverse_map_path(_from_local_path(path))
 
